@@ -302,7 +302,7 @@ def write_generated(g, path):
         alts = g['_alts']
         f.write('Definition gen_prefix_alternatives : option (list string) := %s.\n' %
                 ('None' if alts is None else 'Some [' + '; '.join(coq_str(a) for a in alts) + ']'))
-        f.write('Inductive pol := PNone | PPos | PNeg | PUnknown.\n')
+        f.write('From TP Require Import GenSpec.\n')
         pm = {'none': 'PNone', 'pos': 'PPos', 'neg': 'PNeg', 'unknown': 'PUnknown'}
         f.write('Definition gen_cfg_gates : list (string * N * string * string * pol) := [\n')
         f.write(';\n'.join('  (%s, %d, %s, %s, %s)' % (coq_str(a), b, coq_str(c), coq_str(d), pm[e]) for a, b, c, d, e in g['_cfg']))
@@ -338,7 +338,7 @@ ALL_PIDS = sorted(set(p for v in OBLIGATIONS.values() for p in v[0]))
 
 PRELUDE = '''From Coq Require Import List NArith Bool String.
 Import ListNotations.
-From TP Require Import Core Path Unix Win Spec.
+From TP Require Import Core Path Unix Win Spec GenSpec.
 From Gen Require Import Generated.
 Open Scope string_scope.
 Open Scope N_scope.
@@ -347,17 +347,6 @@ Definition set_eq_opt (a : option (list N)) (b : list N) : bool :=
   match a with Some l => subset l b && subset b l | None => false end.
 Fixpoint nodup_b (l : list N) : bool := match l with [] => true | x :: r => negb (mem_b x r) && nodup_b r end.
 Definition nodup_opt (a : option (list N)) : bool := match a with Some l => nodup_b l | None => false end.
-(* a gate is acceptable when it does not mention the std feature, mentions it positively (the item exists
-   only with std), or is the crate-level no_std attribute *)
-Definition gate_ok (g : string * N * string * string * pol) : bool :=
-  match g with
-  | (file, _, kind, expr, p) =>
-      match p with
-      | PNone | PPos => true
-      | PNeg => String.eqb file "src/lib.rs" && String.eqb kind "cfg_attr" && String.eqb expr "not(feature = ""std""), no_std"
-      | PUnknown => false
-      end
-  end.
 '''
 
 
